@@ -50,13 +50,13 @@ ASSUMPTIONS = [
     "clauses need only symmetry and non-negativity",
     "epsilon > 0 (the constructor documents it; GUDHI_CHECK in debug mode)",
     "interleaving is measured only for epsilon < 1, default mini/maxi, dim_max >= 1, Rips complex of at most %d simplices, in "
-    "dimensions < dim_max, with coefficients Z_2 and Z_3" % 170,
+    "dimensions < dim_max, with coefficients Z_2 and Z_3" % 180,
     "the implementation picks a random starting point: every input is run several times; a replay re-runs the input until the "
     "violation shows again (up to 40 runs)",
 ]
 
 EPS = [(1, 10), (1, 4), (1, 2), (9, 10), (1, 1), (2, 1)]
-MAX_RIPS = 170
+MAX_RIPS = 180
 RUNS = 2
 
 
@@ -99,7 +99,25 @@ def matrix_of_points(pts, mode):
 
 
 def gen_points(rng, n, k):
-    style = rng.choice(["grid", "grid", "clusters", "clusters", "geometric", "multi"])
+    style = rng.choice(["grid", "grid", "clusters", "clusters", "geometric", "multi", "perimeter", "perimeter"])
+    if style == "perimeter" and k >= 2:
+        # points on the boundary of an axis-parallel rectangle (a loop), sometimes with jitter
+        a, b = rng.choice([(4, 4), (8, 8), (8, 4), (16, 16), (12, 6), (32, 32)])
+        pts = []
+        for _ in range(n):
+            t = rng.randrange(2 * (a + b))
+            if t < a:
+                p = [t, 0]
+            elif t < a + b:
+                p = [a, t - a]
+            elif t < 2 * a + b:
+                p = [2 * a + b - t, b]
+            else:
+                p = [0, 2 * (a + b) - t]
+            pts.append(p + [0] * (k - 2))
+        return pts, style
+    if style == "perimeter":
+        style = "grid"
     if style == "grid":
         R = rng.choice([3, 6, 16, 64, 256])
         return [[rng.randint(0, R) for _ in range(k)] for _ in range(n)], style
@@ -151,7 +169,24 @@ def gen_integral_euclid(rng, n):
 
 
 def gen_metric_matrix(rng, n):
-    style = rng.choice(["closure", "closure-heavy", "ultra", "path"])
+    style = rng.choice(["closure", "closure-heavy", "ultra", "path", "cycle", "cycle"])
+    if style == "cycle":
+        # shortest-path metric of a weighted cycle (long-lived 1-dimensional class), sometimes with a few pendant points
+        k = n if rng.random() < 0.6 or n < 5 else n - rng.randint(1, 2)
+        w = [rng.choice([1, 1, 2, 2, 3, 4, 8]) for _ in range(k)]
+        big = sum(w) + 10
+        m = [[0 if i == j else big * 4 for j in range(n)] for i in range(n)]
+        for i in range(k):
+            j = (i + 1) % k
+            if i != j:
+                m[i][j] = m[j][i] = min(m[i][j], w[i])
+        for i in range(k, n):
+            a = rng.randrange(k)
+            m[i][a] = m[a][i] = rng.choice([1, 2, 5])
+        perm = list(range(n))
+        rng.shuffle(perm)
+        m = closure(m)
+        return [[m[perm[i]][perm[j]] for j in range(n)] for i in range(n)], style
     if style == "closure":
         W = rng.choice([4, 10, 50])
         m = [[0] * n for _ in range(n)]
